@@ -988,3 +988,45 @@ def segment_blend(P, rep, rule="I1.segment"):
                                   "%s is not a value interpolated between the two neighbouring sections: overriding one section changes answers beyond its neighbours" % (", ".join(bad) or "the initialiser"),
                                   key="%s|%s|additional" % (rule, cls), witness="sections with different total lengths and a model that reads the slab length (mass conserving)")
     rep.floor(rule, n, 6, "segment blends and model hand-overs in slab and fault")
+
+
+def section_index_as_reported(P, rep, rule="K2.section-index"):
+    """the section the trench curve reports is used as reported"""
+    rep.rule(rule, "distance_point_from_curved_planes: the local that holds the section index is written only by copying the `index` field of "
+                   "the closest-point record (or a literal start value): the record's index is the only value for which `index + 1` is "
+                   "known to be a coordinate of the trench, so a stepped index reads the per-section tables past their end")
+    F = P.func("WorldBuilder::Utilities::distance_point_from_curved_planes")
+    holders = set()
+    for x in F.walk():
+        if x.get("k") in ("BinaryOperator",) and x.get("op") == "=" and sc(x["c"][0]).get("k") == "DeclRefExpr":
+            r = sc(x["c"][1])
+            if r.get("k") == "MemberExpr" and r.get("n") == "index" and "ClosestPointOnCurve" in (sc(r["c"][0]).get("t") or ""):
+                holders.add(sc(x["c"][0])["r"])
+    if not holders:
+        raise AnalysisBroken("%s: no local takes the index of the closest-point record" % F.qn)
+    n = 0
+    for h in holders:
+        nm = P.d(h).get("n")
+        for x in F.walk():
+            k = x.get("k")
+            tgt = None
+            if k in ("BinaryOperator", "CompoundAssignOperator") and x.get("op") in norm.ASSIGN_OPS:
+                tgt = sc(x["c"][0])
+            elif k == "UnaryOperator" and x.get("op") in ("++", "--"):
+                tgt = sc(x["c"][0])
+            if tgt is None or not astq.is_ref_to(tgt, h):
+                continue
+            n += 1
+            ok = False
+            if k == "BinaryOperator" and x.get("op") == "=":
+                r = sc(x["c"][1])
+                ok = (r.get("k") == "MemberExpr" and r.get("n") == "index" and "ClosestPointOnCurve" in (sc(r["c"][0]).get("t") or "")) \
+                    or r.get("k") == "IntegerLiteral"
+            if ok:
+                rep.ok(rule, "%s = %s" % (nm, norm.render(P, x["c"][1])[:50]), F.nloc(x), F.qn)
+            else:
+                rep.violation(rule, "%s is modified by `%s`" % (nm, norm.render(P, x)[:60]), F.nloc(x), F.qn, norm.render(P, x)[:120],
+                              "the section index no longer is the one the curve reported: at the last trench coordinate `index + 1` is past the end of "
+                              "every per-section table", key="%s|%s" % (rule, nm),
+                              witness="a query whose closest point lies a hair beyond the last trench coordinate (parametric fraction in (1, 1+1e-8])")
+    rep.floor(rule, n, 1, "writes of the section index")
